@@ -249,3 +249,10 @@ package join
 // C16, rule SB: every blocking operation of the goroutine is a select with both stop cases.
 //@ stoprule (*Discipline).main
 //@ stop roles dsc.breaker.IsBreaked() dsc.opts.Ctx.Done()
+
+// ---------------------------------------------------------------- C20: ownership discipline
+//@ confine Discipline
+//@ confined interruptInterval join passAt unreleased
+//@ shared opts breaker output
+//@ entries (*Discipline).main
+//@ ctors New
